@@ -509,7 +509,9 @@ fn framing_headers(r: &ParsedResp) -> Vec<(String, String)> {
 pub fn check_response(i: usize, req: &ReqSpec, e: &Expected, r: &ParsedResp, closed: bool) -> Result<(), String> {
     // only a prefix of the head made it to the wire (connection torn down under partial writes):
     // nothing of the head can be judged, only whether the message was allowed to be incomplete
-    let head_cut = !r.complete && r.status == 0;
+    // (the same holds when the cut falls inside this request's own interim `100 Continue`, whose
+    // status line the parser then reports for the unfinished message)
+    let head_cut = !r.complete && (r.status == 0 || (r.status == 100 && e.continues > 0));
     if !head_cut && r.status != e.status {
         return Err(format!("response {i}: status {} but the handler program produced {}", r.status, e.status));
     }
@@ -751,7 +753,8 @@ fn run_case_inner(
             // own close some time later (until then a client would wait for the missing bytes or
             // take the next response's bytes for them)
             if let Some(t_drop) = handled.iter().position(|&h| h == i).and_then(|k| out.resps.get(k)).and_then(|r| r.dropped_at) {
-                if out.end_at > t_drop + 200 {
+                // (what is already encoded may first be flushed to a slow peer)
+                if out.end_at > t_drop + out.blocked_ms + 200 {
                     return v.fail_with(format!(
                         "response {i}: body failed/ended short at {t_drop} ms but the connection lived on until {} ms (end={:?})",
                         out.end_at, out.end
